@@ -2220,7 +2220,8 @@ def main(chk: C.Check, build: C.Build) -> None:
                     f"{src} renders {o1[1]!r} for an object whose Python attribute force_liquid_default is true and {o2[1]!r} without it",
                     {"source": src, "data": d1, "data_twin": d2, "implementation": o1, "implementation_twin": o2})
     for src, meth in WITNESS_TRANSLATIONS:
-        o = hook_obj(1, [(meth, ("call", SENT))])
+        # since 97793ac only an object with an attribute `gettext` is accepted as a provider
+        o = hook_obj(1, [(m, ("call", SENT)) for m in sorted(TR_METHODS)])
         data = [("o", o), ("l", ("list", [o]))]
         out = run_impl(src, data)
         called = list(LOG.calls)
